@@ -543,6 +543,7 @@ Qed.
 
 (* shapes of a successful addHTLCs *)
 Lemma apply_add_none i rh k h i' :
+  i_state i <> CCanceled ->
   apply_add H i rh k h None = Some i' ->
   find_htlc k (i_htlcs i) = None /\
   ((i_state i = CSettled /\
@@ -552,13 +553,13 @@ Lemma apply_add_none i rh k h i' :
    ((i_state i = COpen \/ i_state i = CAccepted) /\
     exists paid, i' = with_htlcs i (i_state i) (i_pre i) ((k, h) :: i_htlcs i) paid)).
 Proof.
-  unfold apply_add. destruct (find_htlc k (i_htlcs i)); [discriminate|].
+  intros NC A. unfold apply_add in A. destruct (find_htlc k (i_htlcs i)); [discriminate|].
   split; [reflexivity|].
   destruct (i_state i) eqn:ST; simpl in *.
-  - destruct (is_state HSettled h || _); [discriminate|]. inv H0. right. eauto.
-  - inv H0. left. split; reflexivity.
-  - destruct (is_state HSettled h || _); discriminate.
-  - destruct (is_state HSettled h || _); [discriminate|]. inv H0. right. eauto.
+  - destruct (is_state HSettled h || _); [discriminate|]. inv A. right. eauto.
+  - inv A. left. split; reflexivity.
+  - congruence.
+  - destruct (is_state HSettled h || _); [discriminate|]. inv A. right. eauto.
 Qed.
 
 Lemma apply_add_some_open i rh k h n i' :
@@ -571,11 +572,11 @@ Lemma apply_add_some_open i rh k h n i' :
            (wsum (fun x => is_state HAccepted x || is_state HSettled x)
                  (map_htlcs settle_f ((k, h) :: i_htlcs i))))).
 Proof.
-  intros ST N. unfold apply_add. destruct (find_htlc k (i_htlcs i)); [discriminate|].
+  intros ST N A. unfold apply_add in A. destruct (find_htlc k (i_htlcs i)); [discriminate|].
   split; [reflexivity|]. rewrite ST in *. destruct N; subst n; simpl in *.
-  - destruct (is_state HSettled h || _); [discriminate|]. inv H0. left. eauto.
+  - destruct (is_state HSettled h || _); [discriminate|]. inv A. left. eauto.
   - destruct (i_pre i) as [p|] eqn:P; [|discriminate]. destruct rh as [rh|]; [|discriminate].
-    destruct (N.eqb_spec (H p) rh); [|discriminate]. simpl in H0. inv H0.
+    destruct (N.eqb_spec (H p) rh); [|discriminate]. simpl in A. inv A.
     right. split; [reflexivity|]. exists p. auto.
 Qed.
 
@@ -597,8 +598,11 @@ Proof.
   { apply inv_ok_cons; auto. intro E. congruence. }
   rewrite P.
   change (inv_ok (with_htlcs j CSettled (Some p) (map_htlcs settle_f (i_htlcs j)) paid)).
-  apply inv_ok_settle_all; auto.
+  apply inv_ok_settle_all.
+  - exact OJ.
   - left. exact ST.
+  - exact HP.
+  - exact CP.
   - subst paid. apply wsum_map. intros k0 h0 I0. split; [apply settle_f_data|].
     unfold is_state. rewrite settle_f_state.
     assert (NS : h_state h0 <> HSettled).
@@ -636,7 +640,7 @@ Proof.
       destruct A as [FR [[_ [paid E]]|[X _]]]; [|discriminate]. subst i'.
       pose (j := with_htlcs i (i_state i) (i_pre i) ((k, new_htlc H c 0 None) :: i_htlcs i) 0%N).
       assert (OJ : inv_ok j).
-      { apply inv_ok_cons; auto; try (simpl; intro; contradiction). intro; congruence. }
+      { apply inv_ok_cons; auto; try (simpl; intros; first [contradiction|congruence]). }
       change (inv_ok (with_htlcs j CAccepted (i_pre j) (i_htlcs j) paid)).
       apply inv_ok_to_accepted; auto. simpl.
       intros k0 h0 [X|I] S T; [inv X; simpl in T; contradiction|].
@@ -645,13 +649,13 @@ Proof.
       apply apply_add_some_open in A; auto.
       destruct A as [FR [[X _]|[_ [p' [P' [RH E]]]]]]; [discriminate|]. subst i'.
       rewrite P in P'. inv P'. inv RH.
-      eapply settle_map_cons_accepted; eauto; try congruence.
-      * simpl. intro; contradiction.
-      * intros k0 h0 [X|I] S T; [inv X; simpl in T; contradiction|].
-        exfalso. apply T. eapply NOMPP; eauto.
+      eapply settle_map_cons_accepted; eauto; try congruence;
+        try (simpl; intro; contradiction).
+      intros k0 h0 [X|I] S T; [inv X; simpl in T; contradiction|].
+      exfalso. apply T. eapply NOMPP; eauto.
   - (* settled: duplicate *)
     destruct (i_pre i) as [p|] eqn:P; [|discriminate]. inv U.
-    apply apply_add_none in A. destruct A as [FR [[_ E]|[[X|X] _]]]; try congruence. subst i'.
+    apply apply_add_none in A; [|congruence]. destruct A as [FR [[_ E]|[[X|X] _]]]; try congruence. subst i'.
     destruct (ok_settled H g i OK ST) as [NA _].
     assert (M : map_htlcs settle_f ((k, new_htlc H c 0 None) :: i_htlcs i) =
                 (k, set_hstate (new_htlc H c 0 None) HSettled) :: i_htlcs i).
@@ -660,15 +664,15 @@ Proof.
       apply is_state_iff in S. exfalso. eapply NA; eauto. }
     rewrite M.
     erewrite (wsum_ext (fun x => is_state HAccepted x || is_state HSettled x) (is_state HSettled)).
-    + apply inv_ok_cons_settled; auto. apply data_ok_state. exact D.
+    + apply inv_ok_cons_settled; auto using data_ok_state.
     + intros k0 h0 [X|I0].
       * inv X. reflexivity.
       * assert (S : is_state HAccepted h0 = false) by (apply is_state_false; eapply NA; eauto).
         rewrite S. reflexivity.
   - discriminate.
   - (* accepted: duplicate *)
-    inv U. apply apply_add_none in A. destruct A as [FR [[X _]|[_ [paid E]]]]; [congruence|].
-    subst i'. apply inv_ok_cons; auto; simpl; try tauto. intro; contradiction.
+    inv U. apply apply_add_none in A; [|congruence]. destruct A as [FR [[X _]|[_ [paid E]]]]; [congruence|].
+    subst i'. apply inv_ok_cons; auto; simpl; try tauto; try (intro; contradiction).
 Qed.
 
 Lemma update_mpp_ok c i k h ns r i' addr total :
@@ -682,31 +686,31 @@ Proof.
   destruct (negb (i_amp i) && c_amp c); [discriminate|].
   destruct (negb (cstate_eqb (i_state i) COpen)) eqn:ST; [discriminate|].
   apply negb_false_iff in ST. apply cstate_eqb_eq in ST.
-  destruct (N.eqb_spec addr (i_addr i)) as [EA|]; [|discriminate]. simpl in U.
+  destruct (N.eqb_spec addr (i_addr i)) as [EA|]; [|discriminate]. simpl in U. subst addr.
   destruct (N.eqb_spec total 0) as [|T0]; [discriminate|].
   destruct (N.ltb_spec total (i_value i)) as [|TV]; [discriminate|].
   destruct (any_htlc _ (i_htlcs i)) eqn:MM; [discriminate|].
   destruct (negb (expiry_ok g c i)) eqn:EX; [discriminate|].
   apply negb_false_iff in EX.
-  assert (D : data_ok g i (new_htlc H c total (Some addr))).
+  assert (D : data_ok g i (new_htlc H c total (Some (i_addr i)))).
   { apply new_htlc_data; auto. intro; contradiction. }
   assert (SAME : forall k' h', In (k', h') (i_htlcs i) -> h_state h' = HAccepted -> h_total h' = total).
   { intros k' h' I S. rewrite any_htlc_false in MM. specialize (MM k' h' I).
     apply andb_false_iff in MM. destruct MM as [X|X].
     - apply is_state_false in X. contradiction.
     - apply negb_false_iff in X. apply N.eqb_eq in X. exact X. }
-  assert (CM : h_total (new_htlc H c total (Some addr)) <> 0%N ->
+  assert (CM : h_total (new_htlc H c total (Some (i_addr i))) <> 0%N ->
                forall k' h', In (k', h') (i_htlcs i) -> h_state h' = HAccepted ->
-                             h_total h' <> 0%N -> h_total h' = h_total (new_htlc H c total (Some addr))).
+                             h_total h' <> 0%N -> h_total h' = h_total (new_htlc H c total (Some (i_addr i)))).
   { intros _ k' h' I S _. simpl. eauto. }
   destruct (N.ltb_spec (wadd (wsum (is_state HAccepted) (i_htlcs i)) (c_amt c)) total) as [|CPL].
   - (* partial *)
-    inv U. apply apply_add_none in A. destruct A as [FR [[X _]|[_ [paid E]]]]; [congruence|].
+    inv U. apply apply_add_none in A; [|congruence]. destruct A as [FR [[X _]|[_ [paid E]]]]; [congruence|].
     subst i'. apply inv_ok_cons; auto. intro; congruence.
-  - assert (CP : forall k0 h0, In (k0, h0) ((k, new_htlc H c total (Some addr)) :: i_htlcs i) ->
+  - assert (CP : forall k0 h0, In (k0, h0) ((k, new_htlc H c total (Some (i_addr i))) :: i_htlcs i) ->
                    h_state h0 = HAccepted -> h_total h0 <> 0%N ->
                    (h_total h0 <= wsum (fun x => is_state HAccepted x && negb (N.eqb (h_total x) 0))
-                                       ((k, new_htlc H c total (Some addr)) :: i_htlcs i))%N).
+                                       ((k, new_htlc H c total (Some (i_addr i))) :: i_htlcs i))%N).
     { intros k0 h0 I S T.
       assert (E0 : h_total h0 = total) by (destruct I as [X|I]; [inv X; reflexivity|eauto]).
       rewrite E0. simpl. destruct (N.eqb_spec total 0); [contradiction|]. simpl.
@@ -719,7 +723,7 @@ Proof.
     + inv U. apply apply_add_some_open in A; auto.
       destruct A as [FR [[_ [paid E]]|[X _]]]; [|discriminate]. subst i'.
       pose (j := with_htlcs i (i_state i) (i_pre i)
-                            ((k, new_htlc H c total (Some addr)) :: i_htlcs i) 0%N).
+                            ((k, new_htlc H c total (Some (i_addr i))) :: i_htlcs i) 0%N).
       assert (OJ : inv_ok j) by (apply inv_ok_cons; auto; intro; congruence).
       change (inv_ok (with_htlcs j CAccepted (i_pre j) (i_htlcs j) paid)).
       apply inv_ok_to_accepted; auto.
@@ -731,3 +735,669 @@ Proof.
 Qed.
 
 End Steps.
+
+(* ------------------------------------------------------------------ *)
+(* shape of a step: which invoice changes, and how                      *)
+
+Section Shape.
+Variable H : N -> N.
+Variable g : cfg.
+
+Notation inv_ok := (inv_ok H g).
+Notation state_ok := (state_ok H g).
+
+Inductive trans (i i' : invoice) : Prop :=
+| T_add c h ns r :
+    i_hash i = c_hash c -> update_invoice H g c i = UAdd h ns r ->
+    apply_add H i (Some (c_hash c)) (c_key c) h ns = Some i' -> trans i i'
+| T_settle p : i_state i = CAccepted -> apply_settle_hodl H i p = Some i' -> trans i i'
+| T_cancel : i_state i = COpen \/ i_state i = CAccepted -> apply_cancel i = Some i' -> trans i i'
+| T_timeout k h :
+    i_state i = COpen -> find_htlc k (i_htlcs i) = Some h -> h_state h = HAccepted ->
+    i' = with_htlcs i (i_state i) (i_pre i) (set_htlc_state k HCanceled (i_htlcs i)) (i_paid i) ->
+    trans i i'.
+
+Inductive shape (l l' : list invoice) : Prop :=
+| S_same : l' = l -> shape l l'
+| S_new i : find_by_hash (i_hash i) l = None ->
+            l' = with_htlcs i COpen (i_pre i) [] 0%N :: l -> shape l l'
+| S_put i i' : In i l -> trans i i' -> l' = put_inv i' l -> shape l l'.
+
+Lemma trans_hash i i' : trans i i' -> i_hash i' = i_hash i.
+Proof.
+  intros [c h ns r E U A|p S A|S A|k hk S FK HK E].
+  - unfold apply_add in A. destruct (find_htlc _ _); [discriminate|].
+    destruct (match ns with Some _ => _ | None => _ end); [|discriminate].
+    destruct (align_htlcs _ _); [|discriminate]. inv A. reflexivity.
+  - unfold apply_settle_hodl in A. destruct (negb (i_hodl i)); [discriminate|].
+    destruct (negb _); [discriminate|]. destruct (negb _); [discriminate|]. inv A. reflexivity.
+  - unfold apply_cancel in A. destruct (align_htlcs _ _); [|discriminate]. inv A. reflexivity.
+  - subst. reflexivity.
+Qed.
+
+Lemma update_invoice_ok c i h ns r i' :
+  inv_ok i -> i_hash i = c_hash c -> update_invoice H g c i = UAdd h ns r ->
+  apply_add H i (Some (c_hash c)) (c_key c) h ns = Some i' -> inv_ok i'.
+Proof.
+  intros OK E U A. unfold update_invoice in U.
+  destruct (c_mpp c) as [[a t]|].
+  - eapply update_mpp_ok; eauto.
+  - destruct (c_amp c); [discriminate|]. destruct (c_path c).
+    + eapply update_mpp_ok; eauto.
+    + eapply update_legacy_ok; eauto.
+Qed.
+
+Lemma trans_ok i i' : inv_ok i -> trans i i' -> inv_ok i'.
+Proof.
+  intros OK [c h ns r E U A|p S A|S A|k hk S FK HK E].
+  - eapply update_invoice_ok; eauto.
+  - unfold apply_settle_hodl in A. destruct (negb (i_hodl i)); [discriminate|].
+    destruct (negb (any_htlc _ _)); [discriminate|].
+    destruct (N.eqb_spec (H p) (i_hash i)) as [HP|]; [|discriminate]. simpl in A. inv A.
+    apply inv_ok_settle_all; auto.
+    intros k h I SA T.
+    assert (M : mppl (i_state i) h = true).
+    { unfold mppl. rewrite S. simpl. apply andb_true_iff. split; [apply is_state_iff; auto|].
+      apply negb_true_iff. apply N.eqb_neq. exact T. }
+    generalize (ok_complete H g i OK (or_introl S) k h I M). rewrite S. unfold mppl. simpl. auto.
+  - unfold apply_cancel in A. unfold align_htlcs in A.
+    destruct (any_htlc _ _); [discriminate|]. inv A.
+    apply inv_ok_cancel_all; auto. destruct S; congruence.
+  - subst. apply inv_ok_cancel_one; auto.
+Qed.
+
+Lemma shape_ok st l' sb : state_ok st -> shape (invs st) l' -> state_ok (mkState l' sb).
+Proof.
+  intros SO [E|i F E|i i' I T E]; subst.
+  - apply state_ok_subs. exact SO.
+  - destruct SO as [ND OK]. split; simpl.
+    + constructor; [|exact ND]. intro X. apply in_map_iff in X. destruct X as [x [E I]].
+      unfold find_by_hash in F. eapply find_none in F; eauto. rewrite E, N.eqb_refl in F. discriminate.
+    + intros x [E|I]; [|auto]. subst. constructor; simpl.
+      * constructor.
+      * intros k h [].
+      * intros _ k h [].
+      * discriminate.
+      * discriminate.
+      * intros k h k' h' [].
+      * intros [E|E]; discriminate.
+  - eapply state_ok_put; eauto.
+    + apply trans_hash. exact T.
+    + eapply trans_ok; eauto. destruct SO as [_ OK]. auto.
+Qed.
+
+Lemma add_invoice_shape st i st' a :
+  add_invoice g st i = (st', a) -> shape (invs st) (invs st') /\ subs st' = subs st.
+Proof.
+  unfold add_invoice. destruct (_ && _ && _); [intro X; inv X; split; [apply S_same|]; auto|].
+  destruct (find_by_hash (i_hash i) (invs st)) eqn:F; [intro X; inv X; split; [apply S_same|]; auto|].
+  destruct (_ && _); intro X; inv X; split; auto; [apply S_same; auto|].
+  eapply S_new; eauto.
+Qed.
+
+(* a UAdd can only come out of a context whose invoice ref carries the hash *)
+Lemma uadd_ref c i h ns r :
+  update_invoice H g c i = UAdd h ns r ->
+  (i_amp i && c_amp c && match c_mpp c with Some _ => true | None => false end) = false ->
+  fst (ctx_ref c) = Some (c_hash c).
+Proof.
+  unfold update_invoice, ctx_ref. intros U G.
+  destruct (c_path c); [reflexivity|].
+  destruct (c_mpp c) as [[a t]|]; [|reflexivity].
+  destruct (c_amp c) eqn:CA; [|reflexivity]. exfalso.
+  unfold update_mpp in U. rewrite CA in U. destruct (i_amp i); simpl in *; discriminate.
+Qed.
+
+Lemma notify_locked_shape st c st' o :
+  notify_locked H g st c = (st', o) -> shape (invs st) (invs st').
+Proof.
+  unfold notify_locked. destruct (ctx_ref c) as [rh ra] eqn:CR.
+  destruct (lookup_ref (g_kv g) (invs st) rh ra) as [i|] eqn:L;
+    [|unfold fail_now; intro X; inv X; apply S_same; reflexivity].
+  destruct (i_amp i && c_amp c && _) eqn:G; [intro X; inv X; apply S_same; reflexivity|].
+  match goal with
+  | |- (match ?u with Some _ => _ | None => _ end) = _ -> _ => destruct u as [[[i' r] ch]|] eqn:U
+  end; [|intro X; inv X; apply S_same; reflexivity].
+  assert (SH : shape (invs st) (if ch then put_inv i' (invs st) else invs st)).
+  { destruct (find_htlc (c_key c) (i_htlcs i)) as [h0|] eqn:F.
+    - destruct (h_state h0); try (inv U; apply S_same; reflexivity).
+      destruct (i_pre i); [|discriminate]. destruct (N.eqb _ _); inv U. apply S_same; reflexivity.
+    - destruct (update_invoice H g c i) as [oc|h ns r0|] eqn:UI; try discriminate.
+      + inv U. apply S_same; reflexivity.
+      + destruct (apply_add H i rh (c_key c) h ns) as [i2|] eqn:A; [|discriminate]. inv U.
+        assert (RH : rh = Some (c_hash c)).
+        { generalize (uadd_ref c i h ns r0 UI G). rewrite CR. simpl. auto. }
+        subst rh. eapply S_put; eauto.
+        * eapply lookup_ref_in; eauto.
+        * eapply T_add; eauto. eapply lookup_ref_hash; eauto. }
+  destruct r as [[k p ah oc|k ah oc]|].
+  - destruct (deliver _ _) as [sb out]. intro X; inv X. exact SH.
+  - destruct (deliver _ _) as [sb out]. intro X; inv X. exact SH.
+  - destruct (find_htlc (c_key c) (i_htlcs i')); intro X; inv X; [exact SH|apply S_same; reflexivity].
+Qed.
+
+Definition shape2 (l l' : list invoice) : Prop := exists l1, shape l l1 /\ shape l1 l'.
+
+Lemma step_shape st e st' o : step H g st e = (st', o) -> shape2 (invs st) (invs st').
+Proof.
+  destruct e as [i|c|p|h f|h a k]; simpl.
+  - destruct (add_invoice g st i) as [s1 a] eqn:A. intro X; inv X.
+    exists (invs st). split; [apply S_same; reflexivity|]. eapply add_invoice_shape; eauto.
+  - unfold notify. destruct (g_keysend g && negb (c_amp c)).
+    + destruct (process_keysend H g st c) as [st1|] eqn:PK.
+      * intro NL. exists (invs st1). split; [|eapply notify_locked_shape; eauto].
+        unfold process_keysend in PK. destruct (c_ks c); try discriminate.
+        -- inv PK. apply S_same; reflexivity.
+        -- destruct (negb _); [discriminate|]. destruct (c_mpp c); [discriminate|].
+           destruct (Z.ltb _ _); [discriminate|]. inv PK.
+           match goal with |- shape _ (invs (fst ?x)) => destruct x as [s2 a2] eqn:AI end.
+           simpl. eapply add_invoice_shape; eauto.
+      * unfold fail_now. intro X; inv X. exists (invs st'). split; apply S_same; reflexivity.
+    + intro NL. exists (invs st). split; [apply S_same; reflexivity|eapply notify_locked_shape; eauto].
+  - unfold settle_hodl. exists (invs st). split; [apply S_same; reflexivity|].
+    destruct (lookup_ref _ _ _ _) as [i|] eqn:L; [|inv H0; apply S_same; reflexivity].
+    destruct (i_state i) eqn:S; try (inv H0; apply S_same; reflexivity).
+    destruct (apply_settle_hodl H i p) as [i'|] eqn:A; [|inv H0; apply S_same; reflexivity].
+    destruct (deliver _ _) as [sb out]. inv H0. simpl.
+    eapply S_put; eauto. eapply lookup_ref_in; eauto. eapply T_settle; eauto.
+  - unfold cancel_invoice. exists (invs st). split; [apply S_same; reflexivity|].
+    destruct (lookup_ref _ _ _ _) as [i|] eqn:L; [|inv H0; apply S_same; reflexivity].
+    destruct (i_state i) eqn:S; try (inv H0; apply S_same; reflexivity).
+    + simpl in H0. destruct (apply_cancel i) as [i'|] eqn:A; [|inv H0; apply S_same; reflexivity].
+      destruct (deliver _ _) as [sb out]. inv H0. simpl.
+      eapply S_put; eauto. eapply lookup_ref_in; eauto. eapply T_cancel; eauto.
+    + destruct (cstate_eqb CAccepted CAccepted && negb f); [inv H0; apply S_same; reflexivity|].
+      destruct (apply_cancel i) as [i'|] eqn:A; [|inv H0; apply S_same; reflexivity].
+      destruct (deliver _ _) as [sb out]. inv H0. simpl.
+      eapply S_put; eauto. eapply lookup_ref_in; eauto. eapply T_cancel; eauto.
+  - unfold timeout_htlc. exists (invs st). split; [apply S_same; reflexivity|].
+    destruct (lookup_ref _ _ _ _) as [i|] eqn:L; [|inv H0; apply S_same; reflexivity].
+    destruct (negb (cstate_eqb (i_state i) COpen)) eqn:S; [inv H0; apply S_same; reflexivity|].
+    apply negb_false_iff in S. apply cstate_eqb_eq in S.
+    destruct (find_htlc k (i_htlcs i)) as [h0|] eqn:FK; [|inv H0; apply S_same; reflexivity].
+    destruct (negb (is_state HAccepted h0)) eqn:IA; [inv H0; apply S_same; reflexivity|].
+    apply negb_false_iff in IA. apply is_state_iff in IA.
+    destruct (deliver _ _) as [sb out]. inv H0. simpl.
+    eapply S_put; eauto. eapply lookup_ref_in; eauto. eapply T_timeout; eauto.
+Qed.
+
+Theorem step_ok st e st' o : state_ok st -> step H g st e = (st', o) -> state_ok st'.
+Proof.
+  intros SO ST. apply step_shape in ST. destruct ST as [l1 [S1 S2]].
+  assert (O1 : state_ok (mkState l1 [])) by (eapply shape_ok; eauto).
+  generalize (shape_ok (mkState l1 []) (invs st') (subs st') O1 S2).
+  destruct st'; auto.
+Qed.
+
+Lemma init_ok : state_ok init.
+Proof. split; simpl; [constructor|intros i []]. Qed.
+
+Theorem run_ok st evs st' outs :
+  state_ok st -> run H g st evs = (st', outs) -> state_ok st'.
+Proof.
+  revert st st' outs. induction evs as [|e r IH]; simpl; intros st st' outs SO R.
+  - inv R. exact SO.
+  - destruct (step H g st e) as [st1 o] eqn:S. destruct (run H g st1 r) as [st2 os] eqn:R2.
+    inv R. eapply IH; [|eauto]. eapply step_ok; eauto.
+Qed.
+
+End Shape.
+
+(* ------------------------------------------------------------------ *)
+(* states only move forward                                             *)
+
+Definition hstate_le (a b : hstate) : Prop := a = b \/ a = HAccepted.
+Definition cstate_le (a b : cstate) : Prop :=
+  a = b \/ a = COpen \/ (a = CAccepted /\ (b = CSettled \/ b = CCanceled)).
+Definition same_rec (h h' : htlc) : Prop :=
+  h_amt h = h_amt h' /\ h_total h = h_total h' /\ h_expiry h = h_expiry h' /\
+  h_height h = h_height h' /\ h_hash h = h_hash h'.
+Definition inv_le (i i' : invoice) : Prop :=
+  i_hash i' = i_hash i /\ i_value i' = i_value i /\ i_addr i' = i_addr i /\
+  cstate_le (i_state i) (i_state i') /\
+  (forall p, i_state i = CSettled -> i_pre i = Some p -> i_pre i' = Some p) /\
+  forall k h, In (k, h) (i_htlcs i) ->
+              exists h', In (k, h') (i_htlcs i') /\ hstate_le (h_state h) (h_state h') /\ same_rec h h'.
+Definition state_le (l l' : list invoice) : Prop :=
+  forall i, In i l -> exists i', In i' l' /\ inv_le i i'.
+
+Lemma same_rec_refl h : same_rec h h.
+Proof. unfold same_rec. tauto. Qed.
+Lemma same_rec_set h s : same_rec h (set_hstate h s).
+Proof. unfold same_rec. simpl. tauto. Qed.
+
+Lemma inv_le_refl i : inv_le i i.
+Proof.
+  unfold inv_le. repeat split; auto. left; reflexivity.
+  intros k h I. exists h. split; [auto|]. split; [left; reflexivity|apply same_rec_refl].
+Qed.
+
+Lemma hstate_le_trans a b c : hstate_le a b -> hstate_le b c -> hstate_le a c.
+Proof. unfold hstate_le. intros [X|X] [Y|Y]; subst; auto. Qed.
+
+Lemma cstate_le_trans a b c : cstate_le a b -> cstate_le b c -> cstate_le a c.
+Proof.
+  unfold cstate_le. destruct a, b, c; intros X Y; try tauto;
+    repeat match goal with
+           | X : _ \/ _ |- _ => destruct X
+           | X : _ /\ _ |- _ => destruct X
+           end; try discriminate; tauto.
+Qed.
+
+Lemma cstate_le_settled b : cstate_le CSettled b -> b = CSettled.
+Proof. unfold cstate_le. intros [X|[X|[X _]]]; congruence. Qed.
+
+Lemma inv_le_trans a b c : inv_le a b -> inv_le b c -> inv_le a c.
+Proof.
+  intros (A1 & A2 & A3 & A4 & A5 & A6) (B1 & B2 & B3 & B4 & B5 & B6).
+  unfold inv_le. repeat split; try congruence.
+  - eapply cstate_le_trans; eauto.
+  - intros p S P. apply B5; auto. rewrite S in A4. apply cstate_le_settled in A4. auto.
+  - intros k h I. destruct (A6 k h I) as [h1 [I1 [L1 R1]]]. destruct (B6 k h1 I1) as [h2 [I2 [L2 R2]]].
+    exists h2. split; [auto|]. split; [eapply hstate_le_trans; eauto|].
+    unfold same_rec in *. intuition congruence.
+Qed.
+
+Lemma state_le_refl l : state_le l l.
+Proof. intros i I. exists i. split; [auto|apply inv_le_refl]. Qed.
+
+Lemma state_le_trans a b c : state_le a b -> state_le b c -> state_le a c.
+Proof.
+  intros X Y i I. destruct (X i I) as [i1 [I1 L1]]. destruct (Y i1 I1) as [i2 [I2 L2]].
+  exists i2. split; [auto|eapply inv_le_trans; eauto].
+Qed.
+
+Section Mono.
+Variable H : N -> N.
+Variable g : cfg.
+
+Lemma align_le s l l' :
+  align_htlcs s l = Some l' ->
+  forall k h, In (k, h) l ->
+              exists h', In (k, h') l' /\ hstate_le (h_state h) (h_state h') /\ same_rec h h'.
+Proof.
+  unfold align_htlcs. intros A k h I.
+  assert (ID : exists h', In (k, h') l /\ hstate_le (h_state h) (h_state h') /\ same_rec h h').
+  { exists h. split; [auto|]. split; [left; reflexivity|apply same_rec_refl]. }
+  destruct s.
+  - destruct (any_htlc _ _); inv A. exact ID.
+  - inv A. exists (settle_f h). split; [apply in_map_htlcs; eauto|].
+    split.
+    + rewrite settle_f_state. unfold hstate_le. destruct (h_state h); auto.
+    + unfold settle_f. destruct (is_state HAccepted h); [apply same_rec_set|apply same_rec_refl].
+  - destruct (any_htlc (is_state HSettled) l) eqn:AS; inv A.
+    exists (set_hstate h HCanceled). split; [apply in_map_htlcs; eauto|].
+    split; [|apply same_rec_set]. simpl. rewrite any_htlc_false in AS.
+    specialize (AS k h I). apply is_state_false in AS. unfold hstate_le.
+    destruct (h_state h); auto. congruence.
+  - destruct (any_htlc _ _); inv A. exact ID.
+Qed.
+
+Lemma trans_le i i' : inv_ok H g i -> trans H g i i' -> inv_le i i'.
+Proof.
+  intros OK [c h ns r E U A|p S A|S A|k hk S FK HK E].
+  - unfold apply_add in A. destruct (find_htlc _ _); [discriminate|].
+    destruct (match ns with Some _ => _ | None => _ end) as [s1|] eqn:S1; [|discriminate].
+    destruct (align_htlcs s1 _) as [hs2|] eqn:AL; [|discriminate]. inv A.
+    unfold inv_le. simpl. repeat split; auto.
+    + destruct ns as [n|]; [|inv S1; left; reflexivity].
+      unfold cstate_le. destruct (i_state i); try discriminate; auto.
+      destruct n; simpl in S1; try discriminate; auto.
+      * destruct (i_pre i); [|discriminate]. destruct (N.eqb _ _); inv S1. auto.
+      * inv S1. auto.
+    + intros k0 h0 I. eapply align_le; eauto. right. exact I.
+  - unfold apply_settle_hodl in A. destruct (negb (i_hodl i)); [discriminate|].
+    destruct (negb _); [discriminate|]. destruct (negb _); [discriminate|]. inv A.
+    unfold inv_le. simpl. repeat split; auto.
+    + unfold cstate_le. rewrite S. auto.
+    + intros. congruence.
+    + intros k0 h0 I. eapply (align_le CSettled); eauto. reflexivity.
+  - unfold apply_cancel in A. destruct (align_htlcs _ _) eqn:AL; [|discriminate]. inv A.
+    unfold inv_le. simpl. repeat split; auto.
+    + unfold cstate_le. destruct S as [S|S]; rewrite S; auto.
+    + intros k0 h0 I. eapply align_le; eauto.
+  - subst. unfold inv_le. simpl. repeat split; auto.
+    + left; reflexivity.
+    + intros k0 h0 I. exists (if N.eqb k0 k then set_hstate h0 HCanceled else h0).
+      split; [apply in_set_htlc_state; eauto|].
+      destruct (N.eqb_spec k0 k); [|split; [left; reflexivity|apply same_rec_refl]].
+      split; [|apply same_rec_set]. subst k0.
+      assert (h0 = hk).
+      { apply (in_find_htlc k (i_htlcs i) h0 (ok_nodup H g i OK)) in I. congruence. }
+      subst. right. exact HK.
+Qed.
+
+Lemma shape_le l l' :
+  NoDup (map i_hash l) -> (forall i, In i l -> inv_ok H g i) -> shape H g l l' -> state_le l l'.
+Proof.
+  intros ND OK [E|i F E|i i' I T E]; subst.
+  - apply state_le_refl.
+  - intros x X. exists x. split; [right; auto|apply inv_le_refl].
+  - intros x X. destruct (N.eqb_spec (i_hash x) (i_hash i')) as [EQ|NE].
+    + assert (x = i).
+      { eapply nodup_hash_eq; eauto. rewrite EQ. apply trans_hash in T. exact T. }
+      subst x. exists i'. split; [eapply put_inv_in; eauto|apply trans_le; auto].
+    + exists x. split; [apply put_inv_other; auto|apply inv_le_refl].
+Qed.
+
+Theorem step_le st e st' o :
+  state_ok H g st -> step H g st e = (st', o) -> state_le (invs st) (invs st').
+Proof.
+  intros SO ST. generalize (step_shape H g st e st' o ST). intros [l1 [S1 S2]].
+  assert (O1 : state_ok H g (mkState l1 [])) by (eapply shape_ok; eauto).
+  destruct SO as [ND OK]. destruct O1 as [ND1 OK1]. simpl in *.
+  eapply state_le_trans; eapply shape_le; eauto.
+Qed.
+
+Theorem run_le st evs st' outs :
+  state_ok H g st -> run H g st evs = (st', outs) -> state_le (invs st) (invs st').
+Proof.
+  revert st st' outs. induction evs as [|e r IH]; simpl; intros st st' outs SO R.
+  - inv R. apply state_le_refl.
+  - destruct (step H g st e) as [st1 o] eqn:S. destruct (run H g st1 r) as [st2 os] eqn:R2.
+    inv R. eapply state_le_trans; [eapply step_le; eauto|].
+    eapply IH; [|eauto]. eapply step_ok; eauto.
+Qed.
+
+End Mono.
+
+(* ------------------------------------------------------------------ *)
+(* every settle resolution is backed by a settled record                *)
+
+Section Outs.
+Variable H : N -> N.
+Variable g : cfg.
+
+Definition res_settle (r : resn) : list (N * N) :=
+  match r with NSettle k p _ _ => [(k, p)] | NFail _ _ _ => [] end.
+
+Definition settle_outs (o : reply * list resn) : list (N * N) :=
+  match fst o with RpDirect (DRes r) => res_settle r | _ => [] end ++ flat_map res_settle (snd o).
+
+Definition settled_in (l : list invoice) (k p : N) : Prop :=
+  exists i h, In i l /\ In (k, h) (i_htlcs i) /\ h_state h = HSettled /\ i_pre i = Some p.
+
+Ltac break_in U :=
+  repeat match type of U with
+         | context [if ?b then _ else _] => destruct b eqn:?
+         | context [match ?x with Some _ => _ | None => _ end] => destruct x eqn:?
+         | context [match ?x with COpen => _ | CSettled => _ | CCanceled => _ | CAccepted => _ end] =>
+           destruct x eqn:?
+         end; try discriminate.
+
+Lemma update_settle_res c i h ns p oc :
+  update_invoice H g c i = UAdd h ns (Some (p, oc)) ->
+  i_pre i = Some p /\ h_state h = HAccepted /\
+  ((ns = Some CSettled /\ i_state i = COpen) \/ (ns = None /\ i_state i = CSettled)).
+Proof.
+  intro U. unfold update_invoice in U.
+  destruct (c_mpp c) as [[a t]|].
+  - unfold update_mpp in U. break_in U. inv U. simpl. apply negb_false_iff in Heqb1.
+    apply cstate_eqb_eq in Heqb1. auto.
+  - destruct (c_amp c); [discriminate|]. destruct (c_path c).
+    + unfold update_mpp in U. break_in U. inv U. simpl. apply negb_false_iff in Heqb1.
+      apply cstate_eqb_eq in Heqb1. auto.
+    + unfold update_legacy in U. break_in U; inv U; simpl; auto.
+Qed.
+
+Lemma ntf_settled i' p oc sb sb' out k0 p0 :
+  deliver sb (map (fun kh => NSettle (fst kh) p (h_height (snd kh)) oc)
+                  (htlcs_in HSettled (i_htlcs i'))) = (sb', out) ->
+  In (k0, p0) (flat_map res_settle out) ->
+  p0 = p /\ exists h, In (k0, h) (i_htlcs i') /\ h_state h = HSettled.
+Proof.
+  intros D I. apply in_flat_map in I. destruct I as [r [IR IS]].
+  eapply deliver_in in IR; eauto. apply in_map_iff in IR. destruct IR as [[k1 h1] [E I1]].
+  subst r. simpl in IS. destruct IS as [X|[]]. inv X.
+  unfold htlcs_in in I1. apply filter_In in I1. destruct I1 as [I1 S]. simpl in S.
+  apply is_state_iff in S. eauto.
+Qed.
+
+Lemma ntf_fail_nosettle (f : N * htlc -> resn) l sb sb' out x :
+  (forall kh, res_settle (f kh) = []) ->
+  deliver sb (map f l) = (sb', out) -> In x (flat_map res_settle out) -> False.
+Proof.
+  intros F D I. apply in_flat_map in I. destruct I as [r [IR IS]].
+  eapply deliver_in in IR; eauto. apply in_map_iff in IR. destruct IR as [kh [E _]].
+  subst r. rewrite F in IS. destruct IS.
+Qed.
+
+Lemma notify_locked_settles st c st' o k p :
+  state_ok H g st -> notify_locked H g st c = (st', o) ->
+  In (k, p) (settle_outs o) -> settled_in (invs st') k p.
+Proof.
+  intros SO. unfold notify_locked. destruct (ctx_ref c) as [rh ra] eqn:CR.
+  destruct (lookup_ref (g_kv g) (invs st) rh ra) as [i|] eqn:L;
+    [|unfold fail_now; intro X; inv X; simpl; tauto].
+  destruct (i_amp i && c_amp c && _) eqn:G; [intro X; inv X; simpl; tauto|].
+  assert (II : In i (invs st)) by (eapply lookup_ref_in; eauto).
+  match goal with
+  | |- (match ?u with Some _ => _ | None => _ end) = _ -> _ => destruct u as [[[i' r] ch]|] eqn:U
+  end; [|intro X; inv X; simpl; tauto].
+  assert (A : In i' (if ch then put_inv i' (invs st) else invs st) /\
+              forall k1 p1 ah oc, r = Some (NSettle k1 p1 ah oc) ->
+                (exists h, In (k1, h) (i_htlcs i') /\ h_state h = HSettled) /\ i_pre i' = Some p1).
+  { destruct (find_htlc (c_key c) (i_htlcs i)) as [h0|] eqn:F.
+    - destruct (h_state h0) eqn:HS.
+      + inv U. split; [auto|]. intros; discriminate.
+      + inv U. split; [auto|]. intros; discriminate.
+      + destruct (i_pre i) eqn:P; [|discriminate]. destruct (N.eqb _ _); inv U.
+        split; [auto|]. intros k1 p1 ah oc E. inv E. split; [|auto].
+        exists h0. split; [apply find_htlc_in; auto|auto].
+    - destruct (update_invoice H g c i) as [oc|h ns r0|] eqn:UI; try discriminate.
+      + inv U. split; [auto|]. intros; discriminate.
+      + destruct (apply_add H i rh (c_key c) h ns) as [i2|] eqn:AA; [|discriminate]. inv U.
+        split.
+        * eapply put_inv_in; eauto. unfold apply_add in AA.
+          destruct (find_htlc _ _); [discriminate|].
+          destruct (match ns with Some _ => _ | None => _ end); [|discriminate].
+          destruct (align_htlcs _ _); [|discriminate]. inv AA. reflexivity.
+        * intros k1 p1 ah oc E. destruct r0 as [[p0 oc0]|]; [|discriminate]. inv E.
+          destruct (update_settle_res _ _ _ _ _ _ UI) as [P [HA [[NS ST]|[NS ST]]]]; subst ns.
+          -- apply apply_add_some_open in AA; auto.
+             destruct AA as [_ [[X _]|[_ [p' [P' [_ E]]]]]]; [discriminate|]. subst i'. simpl.
+             split; [|auto]. exists (settle_f h). split; [left; reflexivity|].
+             rewrite settle_f_state, HA. reflexivity.
+          -- apply apply_add_none in AA; [|congruence].
+             destruct AA as [_ [[_ E]|[[X|X] _]]]; try congruence. subst i'. simpl.
+             split; [|auto]. exists (settle_f h). split; [left; reflexivity|].
+             rewrite settle_f_state, HA. reflexivity. }
+  destruct A as [IN RS].
+  destruct r as [[k1 p1 ah oc|k1 ah oc]|].
+  - destruct (RS k1 p1 ah oc eq_refl) as [[h1 [I1 S1]] P1].
+    destruct (deliver _ _) as [sb out] eqn:D. intro X; inv X. unfold settle_outs. simpl.
+    intros [E|I].
+    + inv E. exists i', h1. auto.
+    + destruct (ntf_settled _ _ _ _ _ _ _ _ D I) as [E [h2 [I2 S2]]]. subst.
+      exists i', h2. auto.
+  - destruct (deliver _ _) as [sb out] eqn:D. intro X; inv X. unfold settle_outs. simpl.
+    intro I. exfalso. destruct (is_set_failure oc).
+    + eapply ntf_fail_nosettle; [|exact D|exact I]. reflexivity.
+    + simpl in D. inv D. destruct I.
+  - destruct (find_htlc (c_key c) (i_htlcs i')); intro X; inv X; simpl; tauto.
+Qed.
+
+Theorem step_settles st e st' o k p :
+  state_ok H g st -> step H g st e = (st', o) ->
+  In (k, p) (settle_outs o) -> settled_in (invs st') k p.
+Proof.
+  intros SO. destruct e as [i|c|p0|h f|h a k0]; simpl.
+  - destruct (add_invoice g st i) as [s1 a]. intro X; inv X. simpl. tauto.
+  - unfold notify. destruct (g_keysend g && negb (c_amp c)).
+    + destruct (process_keysend H g st c) as [st1|] eqn:PK.
+      * apply notify_locked_settles.
+        assert (SH : shape H g (invs st) (invs st1)).
+        { unfold process_keysend in PK. destruct (c_ks c); try discriminate.
+          - inv PK. apply S_same; reflexivity.
+          - destruct (negb _); [discriminate|]. destruct (c_mpp c); [discriminate|].
+            destruct (Z.ltb _ _); [discriminate|]. inv PK.
+            match goal with |- shape _ _ _ (invs (fst ?x)) => destruct x as [s2 a2] eqn:AI end.
+            simpl. eapply add_invoice_shape; eauto. }
+        generalize (shape_ok H g st (invs st1) (subs st1) SO SH). destruct st1; auto.
+      * unfold fail_now. intro X; inv X. simpl. tauto.
+    + apply notify_locked_settles. exact SO.
+  - unfold settle_hodl.
+    destruct (lookup_ref _ _ _ _) as [i|] eqn:L; [|intro X; inv X; simpl; tauto].
+    destruct (i_state i) eqn:S; try (intro X; inv X; simpl; tauto).
+    destruct (apply_settle_hodl H i p0) as [i'|] eqn:A; [|intro X; inv X; simpl; tauto].
+    destruct (deliver _ _) as [sb out] eqn:D. intro X; inv X. unfold settle_outs. simpl.
+    intro I. destruct (ntf_settled _ _ _ _ _ _ _ _ D I) as [E [h2 [I2 S2]]]. subst.
+    exists i', h2. repeat split; auto.
+    + eapply put_inv_in; [eapply lookup_ref_in; eauto|].
+      symmetry. apply (trans_hash H g). eapply T_settle; eauto.
+    + unfold apply_settle_hodl in A. destruct (negb (i_hodl i)); [discriminate|].
+      destruct (negb _); [discriminate|]. destruct (negb _); [discriminate|]. inv A. reflexivity.
+  - unfold cancel_invoice.
+    destruct (lookup_ref _ _ _ _) as [i|] eqn:L; [|intro X; inv X; simpl; tauto].
+    destruct (i_state i) eqn:S; try (intro X; inv X; simpl; tauto).
+    + simpl. destruct (apply_cancel i) as [i'|]; [|intro X; inv X; simpl; tauto].
+      destruct (deliver _ _) as [sb out] eqn:D. intro X; inv X. unfold settle_outs. simpl.
+      intro I. exfalso. eapply ntf_fail_nosettle; [|exact D|exact I]. reflexivity.
+    + destruct (cstate_eqb CAccepted CAccepted && negb f); [intro X; inv X; simpl; tauto|].
+      destruct (apply_cancel i) as [i'|]; [|intro X; inv X; simpl; tauto].
+      destruct (deliver _ _) as [sb out] eqn:D. intro X; inv X. unfold settle_outs. simpl.
+      intro I. exfalso. eapply ntf_fail_nosettle; [|exact D|exact I]. reflexivity.
+  - unfold timeout_htlc.
+    destruct (lookup_ref _ _ _ _) as [i|] eqn:L; [|intro X; inv X; simpl; tauto].
+    destruct (negb (cstate_eqb (i_state i) COpen)); [intro X; inv X; simpl; tauto|].
+    destruct (find_htlc k0 (i_htlcs i)) as [h0|]; [|intro X; inv X; simpl; tauto].
+    destruct (negb (is_state HAccepted h0)); [intro X; inv X; simpl; tauto|].
+    destruct (deliver _ _) as [sb out] eqn:D. intro X; inv X. unfold settle_outs. simpl.
+    intro I. exfalso.
+    eapply (ntf_fail_nosettle (fun _ => NFail k0 (h_height h0) F_MppTimeout) [(k0, h0)]);
+      [|exact D|exact I]. reflexivity.
+Qed.
+
+End Outs.
+
+(* ------------------------------------------------------------------ *)
+(* replays, and the property-level corollaries                          *)
+
+Section Final.
+Variable H : N -> N.
+Variable g : cfg.
+
+Lemma process_keysend_none st c : c_ks c = KSNone -> process_keysend H g st c = Some st.
+Proof. unfold process_keysend. intro E. rewrite E. reflexivity. Qed.
+
+Theorem replay_same_verdict st c i h st' rp ntf :
+  state_ok H g st ->
+  g_keysend g = false \/ c_ks c = KSNone ->
+  lookup_ref (g_kv g) (invs st) (fst (ctx_ref c)) (snd (ctx_ref c)) = Some i ->
+  fst (ctx_ref c) = Some (c_hash c) -> i_amp i = false ->
+  find_htlc (c_key c) (i_htlcs i) = Some h ->
+  notify H g st c = (st', (rp, ntf)) ->
+  invs st' = invs st /\
+  match h_state h with
+  | HAccepted => rp = RpDirect DNil
+  | HCanceled => rp = RpDirect (DRes (NFail (c_key c) (h_height h) F_ReplayToCanceled))
+  | HSettled => exists p, i_pre i = Some p /\ H p = c_hash c /\
+                          rp = RpDirect (DRes (NSettle (c_key c) p (c_height c) S_ReplayToSettled))
+  end.
+Proof.
+  intros SO NJ L RH NA F N.
+  assert (NL : notify_locked H g st c = (st', (rp, ntf))).
+  { unfold notify in N. destruct NJ as [E|E].
+    - rewrite E in N. exact N.
+    - rewrite (process_keysend_none st c E) in N. destruct (g_keysend g && negb (c_amp c)); exact N. }
+  clear N. unfold notify_locked in NL. destruct (ctx_ref c) as [rh ra]. simpl in *.
+  rewrite L, NA, F in NL. simpl in NL.
+  assert (II : In i (invs st)) by (eapply lookup_ref_in; eauto).
+  assert (OK : inv_ok H g i) by (destruct SO as [_ X]; auto).
+  assert (EH : i_hash i = c_hash c) by (subst rh; eapply lookup_ref_hash; eauto).
+  destruct (h_state h) eqn:HS.
+  - rewrite F in NL. inv NL. auto.
+  - rewrite F in NL. simpl in NL. inv NL. auto.
+  - assert (ST : i_state i = CSettled).
+    { destruct (i_state i) eqn:S; auto; exfalso;
+        eapply (ok_nosettled H g i OK); eauto using find_htlc_in; congruence. }
+    destruct (ok_settled H g i OK ST) as [_ [p [P [HP _]]]]. rewrite P in NL.
+    rewrite HP, EH, N.eqb_refl in NL.
+    destruct (deliver _ _) as [sb out]. inv NL. split; [reflexivity|]. exists p. repeat split; auto; congruence.
+Qed.
+
+(* what the invariant says about any settled record *)
+Theorem settled_record_sound st i k h :
+  state_ok H g st -> In i (invs st) -> In (k, h) (i_htlcs i) -> h_state h = HSettled ->
+  i_state i = CSettled /\
+  (exists p, i_pre i = Some p /\ H p = h_hash h /\ i_hash i = h_hash h) /\
+  (* payment address *)
+  match h_addr h with
+  | Some a => a = i_addr i
+  | None => i_addr_req i = false \/ h_ks h = true
+  end /\
+  (* final CLTV margins at acceptance *)
+  (u32 (h_height h + g_rd g) <= h_expiry h)%Z /\ (u32 (h_height h + i_delta i) <= h_expiry h)%Z /\
+  (* amounts *)
+  (h_total h = 0%N -> (i_value i <= h_amt h)%N) /\
+  (h_total h <> 0%N ->
+     (i_value i <= h_total h)%N /\
+     (forall k' h', In (k', h') (i_htlcs i) -> h_state h' = HSettled -> h_total h' <> 0%N ->
+                    h_total h' = h_total h) /\
+     (h_total h <= wsum (fun x => is_state HSettled x && negb (N.eqb (h_total x) 0)) (i_htlcs i))%N).
+Proof.
+  intros [_ OKS] II I HS. assert (OK := OKS i II).
+  assert (ST : i_state i = CSettled).
+  { destruct (i_state i) eqn:S; auto; exfalso; eapply (ok_nosettled H g i OK); eauto; congruence. }
+  destruct (ok_data H g i OK k h I) as (D1 & D2 & D3 & D4 & D5 & D6).
+  destruct (ok_settled H g i OK ST) as [_ [p [P [HP _]]]].
+  split; [auto|]. split; [exists p; repeat split; congruence|].
+  repeat split; auto.
+  - intros k' h' I' S' T'. symmetry.
+    eapply (ok_common H g i OK k h k' h'); eauto; rewrite ST; unfold mppl; simpl;
+      apply andb_true_iff; split; try (apply is_state_iff; assumption);
+      apply negb_true_iff; apply N.eqb_neq; assumption.
+  - generalize (ok_complete H g i OK (or_intror ST) k h I). rewrite ST. unfold mppl at 1. simpl.
+    intro X. apply X. apply andb_true_iff. split; [apply is_state_iff; auto|].
+    apply negb_true_iff. apply N.eqb_neq. auto.
+Qed.
+
+Theorem records_forward st1 evs st2 outs i1 k h1 :
+  state_ok H g st1 -> run H g st1 evs = (st2, outs) ->
+  In i1 (invs st1) -> In (k, h1) (i_htlcs i1) ->
+  exists i2 h2,
+    In i2 (invs st2) /\ i_hash i2 = i_hash i1 /\ In (k, h2) (i_htlcs i2) /\
+    (forall x, In (k, x) (i_htlcs i2) -> x = h2) /\
+    (h_state h1 = HSettled -> h_state h2 = HSettled) /\
+    (h_state h1 = HCanceled -> h_state h2 = HCanceled) /\
+    same_rec h1 h2 /\
+    (forall j x, In j (invs st2) -> In (k, x) (i_htlcs j) -> h_hash x = h_hash h1 -> j = i2).
+Proof.
+  intros SO R II I.
+  assert (SO2 : state_ok H g st2) by (eapply run_ok; eauto).
+  destruct (run_le H g st1 evs st2 outs SO R i1 II) as [i2 [I2 (L1 & _ & _ & _ & _ & L6)]].
+  destruct (L6 k h1 I) as [h2 [IH [LE SR]]].
+  exists i2, h2. destruct SO2 as [ND2 OK2]. assert (O2 := OK2 i2 I2).
+  destruct SR as (R1 & R2 & R3 & R4 & R5). unfold same_rec.
+  repeat split; auto.
+  - intros x IX. apply (in_find_htlc _ _ _ (ok_nodup H g i2 O2)) in IX.
+    apply (in_find_htlc _ _ _ (ok_nodup H g i2 O2)) in IH. congruence.
+  - intro S. destruct LE; congruence.
+  - intro S. destruct LE; congruence.
+  - intros j x IJ IX EX. eapply nodup_hash_eq; eauto.
+    destruct (ok_data H g j (OK2 j IJ) k x IX) as [DJ _].
+    destruct SO as [_ OK1]. destruct (ok_data H g i1 (OK1 i1 II) k h1 I) as [D1 _].
+    congruence.
+Qed.
+
+End Final.
+
+(* ---- the JIT keysend pre-check refutes the replay clause (finding C15-F1) ---- *)
+Definition wit_H (p : N) : N := if N.eqb p 1 then 1%N else 0%N.
+Definition wit_cfg : cfg := mkCfg 4 true false true.
+Definition wit_ctx (height : Z) : hctx :=
+  mkCtx 1 3 1000 110 height None false None 0 (KSPre 1).
+Definition wit_events : list event :=
+  [EAdd (mkInv 1 0 1000 (Some 1%N) 9 false false false COpen [] 0); ENotify (wit_ctx 100)].
+
+Lemma replay_keysend_refuted :
+  let st := fst (run wit_H wit_cfg init wit_events) in
+  snd (run wit_H wit_cfg init wit_events) =
+    [(RpApi AOk, []); (RpDirect (DRes (NSettle 3 1 100 S_Settled)), [])] /\
+  (exists i h, In i (invs st) /\ find_htlc 3 (i_htlcs i) = Some h /\ h_state h = HSettled) /\
+  fst (snd (notify wit_H wit_cfg st (wit_ctx 117))) =
+    RpDirect (DRes (NFail 3 117 F_KeySendError)).
+Proof.
+  vm_compute. split; [reflexivity|]. split; [|reflexivity].
+  eexists. eexists. split; [left; reflexivity|]. split; reflexivity.
+Qed.
